@@ -395,6 +395,83 @@ def desugar_options_once(body):
     return nb, len(sites)
 
 
+def expand_generators_once(body):
+    """`std::iter::successors(first, f)` read as the state machine its documentation defines: state `nx: Option<T>` (initially
+    `first`); `next()` = match nx { None => None, Some(cur) => { nx = f(&cur); Some(cur) } }.  Every `next` call on an iterator
+    that is (through into_iter / by_ref) such a generator is rewritten in place; returns (body, count)."""
+    from .mirutil import Tracer, callee_name
+    from .lineage import adaptor_chain
+    tr = Tracer(body)
+    gens = {}
+    sites = []
+    for bi, t in body.calls():
+        if not (callee_name(t) or '').endswith('::next') or not t['args'] or t.get('target') is None or t.get('gen_done'):
+            continue
+        try:
+            src, chain = adaptor_chain(tr, t['args'][0])
+        except Exception:      # noqa: BLE001
+            continue
+        if src.get('o') != 'call' or not (callee_name(src['term']) or '').endswith('iter::successors'):
+            continue        # (an expanded generator's constructor is `pk::generator`: its next calls are gone already)
+        if any(c[0] not in ('into_iter', 'by_ref') for c in chain) or len(src['term']['args']) != 2:
+            continue
+        sites.append((bi, src['bb']))
+    if not sites:
+        return body, 0
+    w = _B(body)
+    for bi, gbb in sites:
+        gt = w.blocks[gbb]['term']
+        span = gt.get('span')
+        if gbb not in gens:
+            first, clo = gt['args']
+            nx_l = w.local(first.get('ty', 'std::option::Option<?>'))
+            clo_l = w.local(clo.get('ty', '?'))
+            cp = lambda o: dict(o, k='copy') if o.get('k') == 'move' else copy.deepcopy(o)      # noqa: E731
+            w.blocks[gbb]['stmts'].append(_assign(_pl(nx_l, w.locals[nx_l]['ty']), {'r': 'use', 'a': cp(first)}, span))
+            w.blocks[gbb]['stmts'].append(_assign(_pl(clo_l, w.locals[clo_l]['ty']), {'r': 'use', 'a': cp(clo)}, span))
+            gens[gbb] = (nx_l, clo_l)
+            # the Successors value itself is now only a token: its state lives in nx / clo
+            gt['func'] = {'k': 'const', 'ty': 'fn', 'fn': 'pk::generator', 'fn_canon': 'pk::generator', 'fn_local': False, 'gargs': [],
+                          'synthetic': True, 'was': 'std::iter::successors'}
+            gt['args'] = []
+        nx_l, clo_l = gens[gbb]
+        t = w.blocks[bi]['term']
+        span = t.get('span')
+        dest, tgt = t['dest'], t['target']
+        opt_ty = w.locals[nx_l]['ty']
+        item_ty = opt_ty[len('std::option::Option<'):-1] if opt_ty.startswith('std::option::Option<') else '?'
+        d_l = w.local('isize')
+        cur_l = w.local(item_ty)
+        cref_l = w.local('&' + item_ty)
+        tup_l = w.local('(tuple)')
+        cr_l = w.local('&mut ' + w.locals[clo_l]['ty'])
+        r_l = w.local(opt_ty)
+        some0 = [{'downcast': 'Some', 'vi': 1}, {'f': 0, 'n': '0', 'of': opt_ty, 'ty': item_ty}]
+        bn = w.block([_assign(copy.deepcopy(dest), {'r': 'aggr', 'agg': 'adt', 'adt': 'std::option::Option', 'variant': 'None', 'vi': 0,
+                                                    'fields': [], 'ops': []}, span)],
+                     {'t': 'goto', 'target': tgt, 'span': span})
+        ba = w.block([_assign(_pl(nx_l, opt_ty), {'r': 'use', 'a': _op(r_l, opt_ty)}, span),
+                      _assign(copy.deepcopy(dest), {'r': 'aggr', 'agg': 'adt', 'adt': 'std::option::Option', 'variant': 'Some', 'vi': 1,
+                                                    'fields': ['0'], 'ops': [_op(cur_l, item_ty, k='copy')]}, span)],
+                     {'t': 'goto', 'target': tgt, 'span': span})
+        cf = dict(_CALLMUT)
+        bs = w.block([_assign(_pl(cur_l, item_ty), {'r': 'use', 'a': _op(nx_l, item_ty, some0, k='copy')}, span),
+                      _assign(_pl(cref_l), {'r': 'ref', 'mut': False, 'bk': 'Shared', 'place': _pl(cur_l, item_ty)}, span),
+                      _assign(_pl(tup_l, '(&%s,)' % item_ty), {'r': 'aggr', 'agg': 'tuple', 'ops': [_op(cref_l, '&' + item_ty)]}, span),
+                      _assign(_pl(cr_l), {'r': 'ref', 'mut': True, 'bk': 'Mut', 'place': _pl(clo_l, w.locals[clo_l]['ty'])}, span)],
+                     {'t': 'call', 'func': cf, 'args': [_op(cr_l, w.locals[cr_l]['ty']), _op(tup_l, '(&%s,)' % item_ty)],
+                      'dest': _pl(r_l, opt_ty), 'target': ba, 'unwind': None, 'span': span, 'fn_span': t.get('fn_span'),
+                      'syn': 'successors'})
+        w.blocks[bi]['stmts'].append(_assign(_pl(d_l, 'isize'), {'r': 'discr', 'place': _pl(nx_l, opt_ty)}, span))
+        w.blocks[bi]['term'] = {'t': 'switch', 'discr': _op(d_l, 'isize'), 'arms': [['0', bn]], 'otherwise': bs, 'span': span,
+                                'syn_generator': 'successors'}
+    nb = Body(w.raw, body.crate_kind)
+    nb.key_in_facts = getattr(body, 'key_in_facts', body.path)
+    nb.inlined = list(getattr(body, 'inlined', []))
+    nb.original = getattr(body, 'original', body)
+    return nb, len(sites)
+
+
 def loop_form(facts, body, rounds=6, collects=False):
     """Desugar consumers and splice the closures they call, until nothing changes (closures may contain consumers)."""
     cur = body
@@ -403,6 +480,8 @@ def loop_form(facts, body, rounds=6, collects=False):
         cur2, n = desugar_once(cur, collects)
         cur2, n2 = desugar_options_once(cur2)
         n += n2
+        cur2, n3 = expand_generators_once(cur2)
+        n += n3
         if n == 0:
             break
         n_total += n
@@ -427,7 +506,7 @@ _INTO_ITER = {'k': 'const', 'ty': 'fn', 'fn': 'std::iter::IntoIterator::into_ite
               'fn_canon': 'core::iter::traits::collect::IntoIterator::into_iter', 'fn_local': False, 'gargs': [],
               'trait': 'std::iter::IntoIterator', 'trait_canon': 'core::iter::traits::collect::IntoIterator', 'synthetic': True}
 
-FUSABLE = ('map', 'filter', 'cloned', 'copied', 'flat_map', 'cartesian_product', 'inspect')
+FUSABLE = ('map', 'filter', 'cloned', 'copied', 'flat_map', 'cartesian_product', 'inspect', 'zip')
 _IDENT = ('into_iter', 'by_ref', 'into_par_iter', 'par_iter')
 
 
@@ -511,7 +590,14 @@ def fuse_once(body):
     if kind == 'cartesian_product':
         b_l = w.local(aargs[1].get('ty', '?'))
         stm.append(_assign(_pl(b_l), {'r': 'use', 'a': copy.deepcopy(aargs[1])}, at.get('span')))
-    w.blocks[fz['abb']]['term'] = {'t': 'goto', 'target': atarget, 'span': at.get('span'), 'syn_fused': kind}
+    if kind == 'zip':
+        # the second iterator: zip calls into_iter() on its argument once, when the adaptor is built
+        b_l = w.local(aargs[1].get('ty', '?'))
+        w.blocks[fz['abb']]['term'] = {'t': 'call', 'func': dict(_INTO_ITER), 'args': [copy.deepcopy(aargs[1])], 'dest': _pl(b_l),
+                                      'target': atarget, 'unwind': None, 'span': at.get('span'), 'fn_span': at.get('fn_span'),
+                                      'syn': 'zip-second', 'syn_fused': kind}
+    else:
+        w.blocks[fz['abb']]['term'] = {'t': 'goto', 'target': atarget, 'span': at.get('span'), 'syn_fused': kind}
     some0 = [{'downcast': 'Some', 'vi': 1}, {'f': 0, 'n': '0', 'of': 'std::option::Option<?item>', 'ty': '?item'}]
     n0_l = w.local('std::option::Option<?up>')
     d0_l = w.local('isize')
@@ -529,14 +615,34 @@ def fuse_once(body):
                 'unwind': None, 'span': span, 'fn_span': at.get('fn_span'), 'syn': kind}
         return stmts, term, r_l
 
-    if kind in ('map', 'filter', 'cloned', 'copied', 'inspect'):
+    if kind in ('map', 'filter', 'cloned', 'copied', 'inspect', 'zip'):
         # hdr: n0 = next(..) -> s0 ; s0: switch discr(n0) [0 -> exit] otherwise b0
         ht['dest'] = _pl(n0_l)
         s0 = w.block([_assign(_pl(d0_l, 'isize'), {'r': 'discr', 'place': _pl(n0_l)}, span)], None)
         ht['target'] = s0
         b0 = w.block([_assign(_pl(y_l), {'r': 'use', 'a': _op(n0_l, '?up', some0)}, span)], None)
         w.blocks[s0]['term'] = {'t': 'switch', 'discr': _op(d0_l, 'isize'), 'arms': [['0', fz['exit']]], 'otherwise': b0, 'span': span}
-        if kind == 'map':
+        if kind == 'zip':
+            # for x in up.zip(b) = for y in up { match b.next() { None => break, Some(z) => { x = (y, z); .. } } }
+            # (Zip::next asks `up` first and does not touch `b` when `up` is exhausted)
+            n1_l = w.local('std::option::Option<?z>')
+            d1_l = w.local('isize')
+            z_l = w.local('?z')
+            pair_l = w.local('(tuple)')
+            br_l = w.local('&mut ' + w.locals[b_l]['ty'])
+            w.blocks[b0]['stmts'].append(_assign(_pl(br_l), {'r': 'ref', 'mut': True, 'bk': 'Mut', 'place': _pl(b_l)}, span))
+            s1 = w.block([_assign(_pl(d1_l, 'isize'), {'r': 'discr', 'place': _pl(n1_l)}, span)], None)
+            nf = dict(_NEXT)
+            nf['self_ty'] = w.locals[b_l]['ty']
+            nf['gargs'] = [nf['self_ty']]
+            w.blocks[b0]['term'] = {'t': 'call', 'func': nf, 'args': [_op(br_l, w.locals[br_l]['ty'])], 'dest': _pl(n1_l), 'target': s1,
+                                    'unwind': None, 'span': span, 'fn_span': at.get('fn_span'), 'syn': 'zip-next'}
+            b1 = w.block([_assign(_pl(z_l), {'r': 'use', 'a': _op(n1_l, '?z', some0)}, span),
+                          _assign(_pl(pair_l, '(?, ?)'), {'r': 'aggr', 'agg': 'tuple', 'ops': [_op(y_l), _op(z_l)]}, span),
+                          _some(_op(pair_l), span, n_l)],
+                         {'t': 'goto', 'target': fz['some'], 'span': span})
+            w.blocks[s1]['term'] = {'t': 'switch', 'discr': _op(d1_l, 'isize'), 'arms': [['0', fz['exit']]], 'otherwise': b1, 'span': span}
+        elif kind == 'map':
             b1 = w.block([], {'t': 'goto', 'target': fz['some'], 'span': span})
             st, term, r_l = call_clo([_op(y_l)], '?item', b1)
             w.blocks[b0]['stmts'] += st
